@@ -38,15 +38,18 @@ func Load(files ...string) (*Env, error) {
 		}
 		for _, d := range af.Decls {
 			gd, ok := d.(*ast.GenDecl)
-			if !ok || gd.Tok != token.CONST {
+			// package-level variables initialised by a constant expression (e.g. instance.CutoffRound)
+			// are indexed too; evaluation refuses anything that is not a constant expression
+			if !ok || (gd.Tok != token.CONST && gd.Tok != token.VAR) {
 				continue
 			}
 			for _, s := range gd.Specs {
 				vs := s.(*ast.ValueSpec)
+				if len(vs.Values) != len(vs.Names) {
+					continue
+				}
 				for i, n := range vs.Names {
-					if i < len(vs.Values) {
-						e.exprs[n.Name] = vs.Values[i]
-					}
+					e.exprs[n.Name] = vs.Values[i]
 				}
 			}
 		}
